@@ -141,6 +141,9 @@ pub struct Conn {
     pub out_fifo: VecDeque<OutEntry>,
     pub rel_fifo: VecDeque<u16>,
     pub qos2_in: VecDeque<(u16, PubParts, Option<PublishProperties>)>,
+    /// the batch handled last for this connection held an acknowledgement the broker itself had solicited
+    /// (in-order PUBACK / PUBREC / PUBCOMP) and nothing that permits a close
+    pub last_batch_solicited_ack: bool,
     pub aliases_in: HashMap<u16, String>,
     pub aliases_out: HashMap<u16, String>,
     pub alias_max: u16,
@@ -288,6 +291,7 @@ impl Model {
             out_fifo: VecDeque::new(),
             rel_fifo: VecDeque::new(),
             qos2_in: VecDeque::new(),
+            last_batch_solicited_ack: false,
             aliases_in: HashMap::new(),
             aliases_out: HashMap::new(),
             alias_max,
@@ -573,6 +577,7 @@ impl Model {
         }
         let client = self.conns[conn].client.clone();
         let mut behind_publish = false;
+        self.conns[conn].last_batch_solicited_ack = false;
         for packet in batch {
             if self.conns[conn].undefined {
                 break;
@@ -655,11 +660,13 @@ impl Model {
                     if !self.ack_in(conn, a.pkid, false) {
                         break;
                     }
+                    self.conns[conn].last_batch_solicited_ack = true;
                 }
                 Packet::PubRec(a, _) => {
                     if !self.ack_in(conn, a.pkid, true) {
                         break;
                     }
+                    self.conns[conn].last_batch_solicited_ack = true;
                 }
                 Packet::PubComp(a, _) => {
                     let head = self.conns[conn].rel_fifo.front().copied();
@@ -669,6 +676,7 @@ impl Model {
                         break;
                     }
                     self.conns[conn].rel_fifo.pop_front();
+                    self.conns[conn].last_batch_solicited_ack = true;
                 }
                 Packet::PingReq(_) => self.conns[conn].owed.push_back(Reply::PingResp),
                 Packet::Disconnect(_, _) => {
@@ -1493,6 +1501,15 @@ impl Model {
                 .fact("client", c.client.clone())
                 .fact("context", context.to_owned()),
         );
+        // (not when a late Disconnect event of an earlier connection explains the close: that is C14's known finding)
+        if c.last_batch_solicited_ack && context != "stale-disconnect" {
+            // the same close seen through C09: only an *unsolicited* acknowledgement may end a connection
+            let resumed = self.sessions.get(&c.client).map(|s| s.resumes > 0).unwrap_or(false);
+            out.push(
+                Record::new("C09", "closed-after-solicited-ack", format!("connection of '{}' was closed right after a batch of acknowledgements the broker itself had solicited, in order", c.client))
+                    .fact("session_resumed", resumed),
+            );
+        }
         self.close(conn, "closed by broker without cause", false);
         out
     }
